@@ -42,7 +42,14 @@ def main():
             continue
         meta = json.load(open(os.path.join(d, "meta.json")))
         prop = meta["property"]
-        r = {"property": prop}
+        r = {"property": prop, "when": time.strftime("%Y-%m-%d %H:%M")}
+        prev = results.get(sid)
+        if prev:
+            r["history"] = list(prev.get("history", []))
+            if "detected" in prev and not prev["detected"]:
+                note = "missed by the %s quick check on %s" % (prop, prev.get("when", "2026-09-26 (round 1)"))
+                if not any(h.startswith("missed by") for h in r["history"]):
+                    r["history"].append(note)
         t0 = time.time()
         try:
             rc, out = sh(["git", "apply", os.path.join(d, "patch.diff")], cwd=REPO)
